@@ -184,6 +184,7 @@ func (w *world) prepare(sc *scenario) {
 	}
 
 	time.Sleep(span)
+	w.attach()
 
 	for k := 0; k < sc.nkeys; k++ {
 		if sc.prefail[k] {
